@@ -42,11 +42,17 @@ def seq_case(arg):
     outs = ["ok " + seq_obs(b)]
     outstanding = []
     budget = 30  # keeps every child far from exhaustion
+
+    def room(i):
+        # entries of child i that are neither evaluated nor handed out (a finite SequenceLearner that has nothing left returns
+        # no point, and BalancingLearner.ask then fails with IndexError: children that can always serve are the quantifier here)
+        return lens[i] - len(b.learners[i].data) - len(b.learners[i].pending_points)
+
     for _ in range(nops):
         r = rng.random()
         if r < 0.3 and budget > 0:
             n, c = rng.choice([0, 1, 1, 2, 3, 5]), rng.random() < 0.7
-            n = min(n, budget)
+            n = min(n, budget, max(0, min(room(i) for i in range(nk)) - 1))
             pts, imps = b.ask(n, tell_pending=c)
             if c:
                 budget -= n
@@ -59,6 +65,8 @@ def seq_case(arg):
             else:
                 i = rng.randrange(nk)
                 p = rng.randrange(lens[i])
+                if room(i) <= 6 and p not in b.learners[i].data and p not in b.learners[i].pending_points:
+                    continue
             v = rng.randrange(-50, 50)
             b.tell((i, (p, p)), v)
             lines.append(f"bal tell {i} {p} {v}")
@@ -66,7 +74,7 @@ def seq_case(arg):
         elif r < 0.7 and budget > 0:
             i = rng.randrange(nk)
             p = rng.randrange(lens[i])
-            if p in b.learners[i].data:
+            if p in b.learners[i].data or room(i) <= 6:
                 continue
             b.tell_pending((i, (p, p)))
             budget -= 1
